@@ -262,8 +262,8 @@ class Fn:
             for n in ast.walk(self.fi.node):
                 if isinstance(n, ast.Call) and isinstance(n.func, ast.Attribute) and n.func.attr in MUTATORS:
                     b = n.func.value
-                    while isinstance(b, (ast.Subscript, ast.Call)):
-                        b = b.value if isinstance(b, ast.Subscript) else (b.func.value if isinstance(b.func, ast.Attribute) else None)
+                    while isinstance(b, (ast.Subscript, ast.Call, ast.Attribute)):
+                        b = b.value if isinstance(b, (ast.Subscript, ast.Attribute)) else (b.func.value if isinstance(b.func, ast.Attribute) else None)
                     if isinstance(b, ast.Name):
                         out.add(b.id)
                     elif isinstance(b, ast.IfExp):
@@ -273,8 +273,9 @@ class Fn:
                     for t in ts:
                         b = t
                         sub = False
-                        while isinstance(b, ast.Subscript):
-                            b, sub = b.value, True
+                        while isinstance(b, (ast.Subscript, ast.Attribute)):
+                            sub = sub or isinstance(b, ast.Subscript)
+                            b = b.value
                         if isinstance(b, ast.Name) and (sub or isinstance(n, ast.AugAssign)):
                             out.add(b.id)
             # aliases of mutated names (t = a if c else b; t.append(x)) make the aliased names mutated as well
@@ -385,7 +386,15 @@ class Fn:
         """Copy of `e` (a node of this function) in which locals with one plain, still valid definition and calls of straight-line
         helpers are replaced by what they stand for. Accumulators (objects changed in place) are never substituted."""
         keep = keep or set()
-        return self._ex(e, stmt_of(e), depth, keep)
+        out = self._ex(e, stmt_of(e), depth, keep)
+        al = getattr(out, "_alias", "")
+        out = self.simplify(out)
+        if al and not hasattr(out, "_alias"):
+            try:
+                out._alias = al  # type: ignore[attr-defined]
+            except Exception:  # noqa: BLE001
+                pass
+        return out
 
     def _ex(self, e, use_stmt, depth: int, keep: set[str]):
         if isinstance(e, list):
@@ -438,6 +447,130 @@ class Fn:
             return call
         return new
 
+    # ------------------------------------------------------------------ projections
+    def _class_of_ctor(self, call: ast.AST):
+        if not isinstance(call, ast.Call):
+            return None
+        t = self.type_of(call.func)
+        for m in (t[1] if t[0] == "union" else [t]):
+            if m[0] == "type":
+                return self.repo.classes.get(m[1])
+        return None
+
+    def ctor_field(self, call: ast.Call, attr: str):
+        """The expression a constructor call gives to the instance attribute `attr` (dataclass / NamedTuple field, or a field an
+        explicit __init__ assigns once from its parameters); None if unknown."""
+        ci = self._class_of_ctor(call)
+        if ci is None or any(isinstance(x, ast.Starred) for x in call.args) or any(k.arg is None for k in call.keywords):
+            return None
+        init = self.repo.lookup_method(ci, "__init__")
+        if init is None:
+            names = [a for c in reversed(self.repo.mro(ci)) for a in c.ann_attrs]
+            if attr not in names:
+                return None
+            for k in call.keywords:
+                if k.arg == attr:
+                    return k.value
+            i = names.index(attr)
+            if i < len(call.args):
+                return call.args[i]
+            for c in self.repo.mro(ci):
+                if attr in c.class_attrs:
+                    d = c.class_attrs[attr]
+                    if isinstance(d, ast.Call) and isinstance(d.func, ast.Name) and d.func.id == "field":
+                        for k in d.keywords:
+                            if k.arg == "default":
+                                return copy_node(k.value, self.fi)
+                            if k.arg == "default_factory":
+                                if isinstance(k.value, ast.Lambda):
+                                    return copy_node(k.value.body, self.fi)
+                                return ast.Call(func=copy_node(k.value, self.fi), args=[], keywords=[])
+                        return None
+                    return copy_node(d, self.fi)
+            return None
+        a = init.node.args
+        if a.vararg or a.kwarg:
+            return None
+        pos = [p.arg for p in [*a.posonlyargs, *a.args]][1:]
+        bind: dict[str, ast.expr] = {}
+        if len(call.args) > len(pos):
+            return None
+        for p, x in zip(pos, call.args):
+            bind[p] = x
+        for k in call.keywords:
+            bind[k.arg] = k.value
+        pos_all = [*a.posonlyargs, *a.args]
+        for p, d in zip(pos_all[len(pos_all) - len(a.defaults):], a.defaults):
+            bind.setdefault(p.arg, copy_node(d, init))
+        for p, d in zip(a.kwonlyargs, a.kw_defaults):
+            if d is not None:
+                bind.setdefault(p.arg, copy_node(d, init))
+        stores = []
+        selfname = init.param_names[0]
+        for n in own_nodes(init.node):
+            if isinstance(n, (ast.Assign, ast.AnnAssign)):
+                ts = n.targets if isinstance(n, ast.Assign) else [n.target]
+                for t_ in ts:
+                    if isinstance(t_, ast.Attribute) and isinstance(t_.value, ast.Name) and t_.value.id == selfname and t_.attr == attr:
+                        stores.append(n)
+        if len(stores) != 1 or stores[0].value is None or stores[0] not in init.node.body:
+            return None
+        v = stores[0].value
+        if any(isinstance(x, ast.Name) and x.id == selfname for x in ast.walk(v)):
+            return None
+        if any(isinstance(x, ast.Name) and isinstance(x.ctx, ast.Load) and x.id in [p.arg for p in init.params] and x.id not in bind for x in ast.walk(v)):
+            return None
+        return substitute(copy_node(v, init), bind)
+
+    def _small_class(self, ci) -> bool:
+        """Value classes whose properties / methods are looked through: private classes and classes of the analysed module that are
+        not part of the public vocabulary (module filters, requirements, evaluables keep their accessors as atoms)."""
+        if ci is None:
+            return False
+        if ci.name.startswith("_"):
+            return True
+        return False
+
+    def simplify(self, e: ast.AST, depth: int = 6) -> ast.AST:
+        """`(a, b)[0]` -> a;  `C(x, y).field` -> x;  `obj.prop` -> the property's expression (small private classes)."""
+        fn = self
+
+        class Tr(ast.NodeTransformer):
+            def visit_Lambda(self, n):  # noqa: N802
+                return n
+
+            def visit_Subscript(self, n: ast.Subscript):  # noqa: N802
+                self.generic_visit(n)
+                if isinstance(n.value, (ast.Tuple, ast.List)) and isinstance(n.slice, ast.Constant) and isinstance(n.slice.value, int) and not any(isinstance(x, ast.Starred) for x in n.value.elts) and -len(n.value.elts) <= n.slice.value < len(n.value.elts):
+                    return n.value.elts[n.slice.value]
+                return n
+
+            def visit_Attribute(self, n: ast.Attribute):  # noqa: N802
+                self.generic_visit(n)
+                if not isinstance(n.ctx, ast.Load) or depth <= 0:
+                    return n
+                if isinstance(n.value, ast.Call):
+                    v = fn.ctor_field(n.value, n.attr)
+                    if v is not None:
+                        return fn.simplify(v, depth - 1)
+                    ci = fn._class_of_ctor(n.value)
+                else:
+                    ci = None
+                    t = fn.type_of(n.value)
+                    ms = list(t[1]) if t[0] == "union" else [t]
+                    if len(ms) == 1 and ms[0][0] == "cls":
+                        ci = fn.repo.classes.get(ms[0][1])
+                if ci is not None and fn._small_class(ci):
+                    impls = [m for m in fn.repo.implementations(ci, n.attr)]
+                    if len(impls) == 1 and (impls[0].is_property or "cached_property" in impls[0].decorators):
+                        body = strip_docstring(impls[0].node.body)
+                        if len(body) == 1 and isinstance(body[0], ast.Return) and body[0].value is not None:
+                            r = substitute(copy_node(body[0].value, impls[0]), {impls[0].param_names[0]: n.value})
+                            return fn.simplify(r, depth - 1)
+                return n
+
+        return Tr().visit(e)
+
     def summarise(self, call: ast.Call, use_stmt, depth: int, keep: set[str]):
         """`helper(args)` -> the helper's return expression when its body is straight-line (single-assignment locals, one
         final return) and the helper is private / nested / module-level."""
@@ -448,7 +581,8 @@ class Fn:
         # other modules (convert_partial_match_to_regex, filter_to_module, the graph searches) are vocabulary and stay calls
         private = callee.name.startswith("_") and not callee.name.startswith("__")
         local = callee.module is self.fi.module and (callee.cls is None or callee.is_staticmethod)
-        if not (private or callee.outer is not None or local) or callee.fq in self.vocabulary:
+        small = callee.cls is not None and self._small_class(callee.cls) and not (callee.name.startswith("__") and callee.name.endswith("__"))
+        if not (private or callee.outer is not None or local or small) or callee.fq in self.vocabulary:
             return None
         body = strip_docstring(callee.node.body)
         if not body:
@@ -462,7 +596,7 @@ class Fn:
             # locals must not be changed in place
             if isinstance(n, ast.Call) and isinstance(n.func, ast.Attribute) and n.func.attr in MUTATORS:
                 return None
-            if isinstance(n, ast.Assign) and not (len(n.targets) == 1 and isinstance(n.targets[0], ast.Name)):
+            if isinstance(n, ast.Assign) and not (len(n.targets) == 1 and (isinstance(n.targets[0], ast.Name) or (isinstance(n.targets[0], ast.Tuple) and all(isinstance(x, ast.Name) for x in n.targets[0].elts)))):
                 return None
         params = [p.arg for p in [*a.posonlyargs, *a.args, *a.kwonlyargs]]
         pos = [p.arg for p in [*a.posonlyargs, *a.args]]
@@ -515,7 +649,14 @@ class Fn:
             for i, st in enumerate(stmts):
                 if isinstance(st, ast.Pass):
                     continue
-                if isinstance(st, ast.Assign):
+                if isinstance(st, ast.Assign) and isinstance(st.targets[0], ast.Tuple):
+                    v = substitute(cp(st.value), env)
+                    for k_, t_ in enumerate(st.targets[0].elts):  # a, b = pair
+                        if isinstance(v, (ast.Tuple, ast.List)) and len(v.elts) == len(st.targets[0].elts):
+                            env[t_.id] = v.elts[k_]
+                        else:
+                            env[t_.id] = ast.Subscript(value=v, slice=ast.Constant(value=k_), ctx=ast.Load())
+                elif isinstance(st, ast.Assign):
                     env[st.targets[0].id] = substitute(cp(st.value), env)
                 elif isinstance(st, ast.AnnAssign) and isinstance(st.target, ast.Name):
                     if st.value is not None:
@@ -542,6 +683,8 @@ class Fn:
         if out is None:
             return None
         out = fold_const(out)
+        if depth > 1 and any(isinstance(x, ast.Call) for x in ast.walk(out)):
+            out = self._ex(out, use_stmt, depth - 1, keep)  # helpers that only delegate to other helpers
         out._summary_of = callee.fq  # type: ignore[attr-defined]
         return out
 
